@@ -209,6 +209,7 @@ type tplRun struct {
 	regionSeq int
 	curArg  string
 	curArgDesc string
+	assertProblem string // first unchecked operand assertion that does not match the emitted operand's type
 	inlinePred func(short string, arg tVal) bool // root-specific: run this sub-compilation instead of leaving a hole
 	holeLog []tplHoleRec
 }
@@ -1015,6 +1016,9 @@ func (r *tplRun) operandToIns(op string, v ast.Expr, env *tplEnv, pos token.Pos)
 		return in
 	}
 	val := r.eval(v, env)
+	if t := r.info.TypeOf(v); t != nil {
+		in.VType = types.TypeString(t, func(*types.Package) string { return "" })
+	}
 	switch op {
 	case "opfork", "opforktrybegin", "opforkalt", "opjump", "opjumpifnot", "oppushpc":
 		if val.k != tvInt {
@@ -1503,10 +1507,54 @@ func (r *tplRun) assign(lhs ast.Expr, v tVal, env *tplEnv, define bool) {
 	}
 }
 
+// checkOperandAsserts: an unchecked assertion c.codes[K].v.(T) executed by the lowering code must find an operand whose
+// static Go type at the emission site is T (the compiler reads back what it emitted; a value of another dynamic type is a
+// panic inside Compile).
+func (r *tplRun) checkOperandAsserts(s ast.Stmt, env *tplEnv) {
+	commaOK := map[*ast.TypeAssertExpr]bool{}
+	ast.Inspect(s, func(q ast.Node) bool {
+		switch x := q.(type) {
+		case *ast.BlockStmt, *ast.FuncLit:
+			return false // nested statements are checked when they are executed
+		case *ast.AssignStmt:
+			if len(x.Lhs) == 2 && len(x.Rhs) == 1 {
+				if ta, ok := unparen(x.Rhs[0]).(*ast.TypeAssertExpr); ok {
+					commaOK[ta] = true
+				}
+			}
+		case *ast.TypeAssertExpr:
+			if x.Type == nil || commaOK[x] {
+				return true
+			}
+			sel, ok := unparen(x.X).(*ast.SelectorExpr)
+			if !ok || sel.Sel.Name != "v" {
+				return true
+			}
+			idx, ok := r.codesIndex(sel.X, env)
+			if !ok || idx < 0 || idx >= len(r.items) {
+				return true
+			}
+			it := r.items[idx]
+			if it.isHole || it.nilSlot || it.ins.VType == "" {
+				return true
+			}
+			want := types.TypeString(r.info.TypeOf(x.Type), func(*types.Package) string { return "" })
+			if it.ins.VType != want && it.ins.VType != "untyped nil" {
+				r.assertProblem = fmt.Sprintf("%s asserts c.codes[%d].v.(%s) without a check, but the %s at that position was emitted with an operand of static type %s", r.c.Pos(x.Pos()), idx, want, it.ins.Op, it.ins.VType)
+			}
+		}
+		return true
+	})
+}
+
 func (r *tplRun) exec(s ast.Stmt, env *tplEnv) {
 	r.steps++
 	if r.steps > 20000 {
 		r.unsupported("step budget exceeded")
+	}
+	switch s.(type) {
+	case *ast.AssignStmt, *ast.ExprStmt, *ast.IfStmt, *ast.ReturnStmt:
+		r.checkOperandAsserts(s, env)
 	}
 	switch x := s.(type) {
 	case *ast.ExprStmt:
@@ -2023,6 +2071,7 @@ type tplVariant struct {
 	Unsupported string
 	Owned       map[string]bool
 	HoleLog     []tplHoleRec
+	AssertProblem string
 }
 
 // tplExplore enumerates the variants of one root function by replaying decision vectors depth-first.
@@ -2053,6 +2102,7 @@ func tplExplore(c *Ctx, fd *ast.FuncDecl, bind func(r *tplRun, env *tplEnv), inl
 		v.Items = r.items
 		v.Owned = r.owned
 		v.HoleLog = r.holeLog
+		v.AssertProblem = r.assertProblem
 		for i, k := range r.keys {
 			v.Choices = append(v.Choices, fmt.Sprintf("%s=%d", k, r.memoVal(i)))
 		}
